@@ -6,7 +6,7 @@
     in the composition theorems the handler is ANY script and the chain ANY list.
     [repaired] = the code after the two fix: commits, [pinned] = before (D2, D3). *)
 From WM Require Import Base.Prelude Simple.Model Simple.Monitor Simple.Throttle
-  Simple.Proofs Simple.ThrottleProofs Simple.DelayProofs Simple.ComposeProofs.
+  Simple.ThrottleCtx Simple.Proofs Simple.ThrottleProofs Simple.ThrottleCtxProofs Simple.DelayProofs Simple.ComposeProofs.
 
 (** Timeout: the result is the handler's; during the call ... *)
 Theorem C19_timeout_transparent : forall d (h : handler) w,
@@ -92,6 +92,18 @@ Proof. exact throttle_breaker_transparent. Qed.
 Theorem C19_throttle_rate : forall p, (0 < p)%Z -> forall arr tk prev, t_buf tk = false -> (prev < t_next tk)%Z ->
   spaced p 0 (throttle_run p tk prev arr) = true.
 Proof. exact throttle_spaced. Qed.
+(** ... whatever the contexts of the messages are (alive, already done, ending while waiting): the
+    wait receives from the ticker only *)
+Theorem C19_throttle_rate_any_context : forall p, (0 < p)%Z -> forall reqs tk prev,
+  t_buf tk = false -> (prev < t_next tk)%Z ->
+  spaced p 0 (throttle_run_ctx false p tk prev reqs) = true.
+Proof. exact throttle_spaced_any_context. Qed.
+(** sensitivity: a wait that also gives up on msg.Context().Done() does not have the property *)
+Theorem C19_throttle_ctx_watching_wait_breaks_rate : exists p reqs, (0 < p)%Z /\
+  throttle_run_ctx true p (new_ticker 0 p) 0 reqs = [0; 0; 0]%Z
+  /\ spaced p 0 (throttle_run_ctx true p (new_ticker 0 p) 0 reqs) = false
+  /\ spaced p 0 (throttle_run_ctx false p (new_ticker 0 p) 0 reqs) = true.
+Proof. exact ctx_watching_wait_breaks_rate. Qed.
 Theorem C19_throttle_rate_meaning : forall p slack l, spaced p slack l = true ->
   forall i k x y, nth_error l i = Some x -> nth_error l (i + S k) = Some y -> (Z.of_nat k * p <= y - x + slack)%Z.
 Proof. exact spaced_meaning. Qed.
@@ -202,6 +214,8 @@ Print Assumptions C19_ignore_errors_by_cause.
 Print Assumptions C19_instant_ack_before_call.
 Print Assumptions C19_throttle_breaker_transparent.
 Print Assumptions C19_throttle_rate.
+Print Assumptions C19_throttle_rate_any_context.
+Print Assumptions C19_throttle_ctx_watching_wait_breaks_rate.
 Print Assumptions C19_throttle_rate_meaning.
 Print Assumptions C19_throttle_window.
 Print Assumptions C19_delay_transparent.
